@@ -260,6 +260,11 @@ class VLoop(asyncio.BaseEventLoop):
                 ev.append((f"Xe{op.chan}:{op.label}", (lambda o=op: self.execute_op(o, deliver=False))))
             else:
                 ev.append((f"X{op.chan}:{op.label}", (lambda o=op: self.execute_op(o))))
+        # a peer that reads slowly: writer.drain() parked by the harness; the peer catching up is an event
+        # of its own, by default taken only once nothing else can run (but before any timer)
+        self.parked_drains = [(lab, f) for lab, f in getattr(self, "parked_drains", []) if not f.done()]
+        for lab, f in self.parked_drains:
+            ev.append((lab, (lambda f=f: f.done() or f.set_result(None))))
         if allow_timers:
             when = self.next_timer_when()
             if when is not None:
